@@ -64,7 +64,8 @@ CHECKS = {
         "budget_s": {"quick": 170, "thorough": 900},
     },
     "C11": {
-        "pkg": "checks/c11", "level": "fault_enumeration", "engine": "E1 bubble-net",
+        "pkg": "checks/c11", "level": "fault_enumeration", "engine": "E1 bubble-net + E3 thread-level",
+        "overlay": "shim:mpc/bls/mpc.go,mpc/ps/tps.go", "overlay_fallback": True,
         "technique": "exhaustive fault enumeration on the real stack in a synctest bubble: every peer x every cut-off point of its transmissions, every single withheld message, cancellation at every big step, unusable stored data",
         "level_text": "for every listed stack/mode/operation every fault cell derived from the default schedule's send log is executed to the virtual deadline plus one further virtual minute; a panic in any goroutine kills the worker and is attributed to the cell",
         "level_note": "default delivery schedule under each fault; n=3 (thorough: 4); deadlines are virtual",
